@@ -71,12 +71,7 @@ func (version *Version) MarshalText() ([]byte, error) {
 }
 
 func (version *Version) UnmarshalText(text []byte) error {
-	var err error
-	*version, err = Parse(string(text))
-	if err != nil {
-		return err
-	}
-	return nil
+	return parseInto(version, string(text))
 }
 
 func (version *Version) UnmarshalControl(data string) error {
@@ -204,10 +199,17 @@ func Compare(a Version, b Version) int {
 // dpkg(1), and even returns roughly the same error messages.
 func Parse(input string) (Version, error) {
 	result := Version{}
-	return result, parseInto(&result, input)
+	if err := parseInto(&result, input); err != nil {
+		return Version{}, err
+	}
+	return result, nil
 }
 
-func parseInto(result *Version, input string) error {
+// parseInto parses input and stores the outcome in *out. On error *out is left
+// unchanged.
+func parseInto(out *Version, input string) error {
+	var result Version
+
 	trimmed := strings.TrimSpace(input)
 	if trimmed == "" {
 		return fmt.Errorf("version string is empty")
@@ -257,6 +259,7 @@ func parseInto(result *Version, input string) error {
 		return fmt.Errorf("invalid character in revision number")
 	}
 
+	*out = result
 	return nil
 }
 
